@@ -310,7 +310,9 @@ impl ConsumeUnverifiedBlockProcessor {
             &epoch.last_block_hash_in_previous_epoch(),
         )?;
         if new_epoch {
-            db_txn.insert_epoch_ext(&epoch.last_block_hash_in_previous_epoch(), &epoch)?;
+            // only the epoch record: the epoch-number index is maintained when a block is
+            // attached to / detached from the main chain, so a side-branch epoch cannot claim it
+            db_txn.insert_epoch_ext_only(&epoch.last_block_hash_in_previous_epoch(), &epoch)?;
         }
 
         let in_ibd = self.shared.is_initial_block_download();
